@@ -38,7 +38,16 @@ func main() {
 		var items []item
 		skipped := 0
 		for i, it := range genfam.Items(quick) {
-			def, err := lexer.New(it.Def.ToRules())
+			var def *lexer.StatefulDefinition
+			var err error
+			func() {
+				defer func() {
+					if r := recover(); r != nil {
+						err = fmt.Errorf("lexer.New panicked: %v", r) // the constructor panics on some inconsistent rule maps
+					}
+				}()
+				def, err = lexer.New(it.Def.ToRules())
+			}()
 			if err != nil {
 				skipped++
 				continue
